@@ -349,6 +349,70 @@ fn search_idl(seed: u64, budget: usize) -> Option<Value> {
     None
 }
 
+// ---------------------------------------------------------------------------------------------
+// C02 / C17 outbound: histories of enqueue/send/flush against the write log of the transport
+#[derive(Debug)]
+struct BadKey;
+impl Serialize for BadKey {
+    fn serialize<S: serde::Serializer>(&self, s: S) -> Result<S::Ok, S::Error> {
+        use serde::ser::SerializeMap;
+        let mut m = s.serialize_map(Some(2))?;
+        m.serialize_entry("error", "a.Bad")?;
+        m.serialize_entry(&true, &1)?; // bool key: refused by zlink's serializer
+        m.end()
+    }
+}
+/// ops: (kind, size)   kind 0 enqueue_call, 1 send_call, 2 send_reply, 3 send_error, 4 flush, 5 send refused, 6 enqueue... of size
+fn run_send(ops: &[(u8, usize)]) -> (Vec<String>, Vec<String>) {
+    let sock = ScriptedSocket::new(&[], &[]);
+    let script = sock.0.clone();
+    let mut conn = zlink_core::Connection::new(sock);
+    let mut pending: Vec<u8> = Vec::new();
+    let mut expected: Vec<Vec<u8>> = Vec::new();
+    let frame = |v: Vec<u8>| { let mut f = v; f.push(0); f };
+    for (k, size) in ops {
+        let payload = "x".repeat(*size);
+        match k {
+            0 => { let c = Call::new(M::S { s: payload }); if conn.enqueue_call(&c).is_ok() { pending.extend(frame(serde_json::to_vec(&c).unwrap())); } }
+            1 => { let c = Call::new(M::S { s: payload }); if block_on(conn.send_call(&c), 10).is_ok() { pending.extend(frame(serde_json::to_vec(&c).unwrap())); expected.push(std::mem::take(&mut pending)); } }
+            2 => { let r = Reply::new(Some(M::S { s: payload })).set_continues(Some(true)); if block_on(conn.send_reply(&r), 10).is_ok() { pending.extend(frame(serde_json::to_vec(&r).unwrap())); expected.push(std::mem::take(&mut pending)); } }
+            3 => { let e = E::Bad { code: *size as u32 }; if block_on(conn.send_error(&e), 10).is_ok() { pending.extend(frame(serde_json::to_vec(&e).unwrap())); expected.push(std::mem::take(&mut pending)); } }
+            4 => { let _ = block_on(conn.flush(), 10); if !pending.is_empty() { expected.push(std::mem::take(&mut pending)); } }
+            _ => { let r = block_on(conn.send_error(&BadKey), 10); if r.is_ok() { expected.push(b"<refused message was accepted>".to_vec()); } }
+        }
+    }
+    let _ = block_on(conn.flush(), 10);
+    if !pending.is_empty() { expected.push(std::mem::take(&mut pending)); }
+    let got = script.borrow().log.clone();
+    let short = |v: &Vec<Vec<u8>>| v.iter().map(|w| { let s = show(w); if s.len() > 60 { format!("{}..({} bytes)..{}", &s[..24], w.len(), &s[s.len() - 24..]) } else { s } }).collect::<Vec<_>>();
+    if got == expected { (vec![], vec![]) } else { (short(&expected), short(&got)) }
+}
+fn search_send(seed: u64, budget: usize) -> Option<Value> {
+    std::panic::set_hook(Box::new(|_| {}));
+    let mut rng = Rng(seed.wrapping_mul(0x9E3779B97F4A7C15) | 1);
+    // the JSON envelope of a call with an s-payload of n bytes is n + 40 bytes: choose sizes so that documents
+    // end at, just before and just after multiples of the 256-byte growth step
+    let overhead = serde_json::to_vec(&Call::new(M::S { s: String::new() })).unwrap().len();
+    for _ in 0..budget {
+        let n = 1 + rng.below(6);
+        let ops: Vec<(u8, usize)> = (0..n).map(|_| {
+            let k = [0u8, 0, 1, 2, 3, 4, 5][rng.below(7)];
+            let target = 256 * (1 + rng.below(4)) + [0usize, 1, 2, 255, 254, 128][rng.below(6)];
+            let size = match rng.below(4) { 0 => rng.below(40), 1 => target.saturating_sub(overhead), _ => target.saturating_sub(overhead + rng.below(3)) };
+            (k, size)
+        }).collect();
+        let ops2 = ops.clone();
+        let (exp, got) = match std::panic::catch_unwind(move || run_send(&ops2)) {
+            Ok(x) => x,
+            Err(_) => (vec!["(no panic)".to_string()], vec!["PANIC inside enqueue/send/flush".to_string()]),
+        };
+        if exp != got {
+            return Some(json!({"kind":"send","ops":ops,"expected_writes":exp,"got_writes":got}));
+        }
+    }
+    None
+}
+
 struct Rng(u64);
 impl Rng {
     fn next(&mut self) -> u64 {
@@ -421,6 +485,7 @@ fn main() {
             "server" => search_server(seed, budget / 10),
             "chain" => search_chain(seed, budget / 10),
             "idl" => search_idl(seed, budget),
+            "send" => search_send(seed, budget / 4),
             _ => panic!("unknown kind"),
         };
         match found {
@@ -451,6 +516,21 @@ fn main() {
             println!("got      = {got:?}");
             if exp != got {
                 println!("REPLAY: FAILS on the real code");
+                std::process::exit(1);
+            }
+            println!("REPLAY: passes on the real code");
+        }
+        Some("send") => {
+            let ops: Vec<(u8, usize)> = w["ops"].as_array().unwrap().iter().map(|x| (x[0].as_u64().unwrap() as u8, x[1].as_u64().unwrap() as usize)).collect();
+            std::panic::set_hook(Box::new(|_| {}));
+            let ops2 = ops.clone();
+            let (exp, got) = match std::panic::catch_unwind(move || run_send(&ops2)) {
+                Ok(x) => x,
+                Err(_) => (vec!["(no panic)".to_string()], vec!["PANIC inside enqueue/send/flush".to_string()]),
+            };
+            println!("ops (0 enqueue_call,1 send_call,2 send_reply,3 send_error,4 flush,5 refused send; payload size) = {ops:?}");
+            if exp != got {
+                println!("expected writes = {exp:?}\ngot writes      = {got:?}\nREPLAY: FAILS on the real code");
                 std::process::exit(1);
             }
             println!("REPLAY: passes on the real code");
